@@ -214,7 +214,10 @@ def http_suite(ctx):
     # oracle only (the model would have to materialise a 10^6-element list per request)
     urls = [('/dash/vod/bbb/bbb_a1/3.m4a', False, True),
             ('/dash/odvod/tiny/tiny_v1.mp4', True, True), ('/dash/odvod/tiny/tiny_v2.mp4', True, True),
-            ('/dash/odvod/tiny/tiny_v3.m4v', True, True), ('/dash/odvod/bbb/bbb_a1.mp4', True, False)]
+            ('/dash/odvod/tiny/tiny_v3.m4v', True, True), ('/dash/odvod/bbb/bbb_a1.mp4', True, False),
+            # a segment whose body is rewritten after encoding (video corruption seeks back into the buffer): the slice
+            # and the total length must be those of the representation a plain GET of the same URL returns
+            ('/dash/vod/bbb/bbb_v7/2.m4v?vcorrupt=2', False, False)]
     if not ctx.quick():
         urls += [('/dash/vod/bbb/bbb_v6_enc/3.m4v?drm=all', False, True), ('/dash/vod/bbb/bbb_v7/1.m4v', False, True),
                  ('/dash/odvod/bbb/bbb_v7.mp4', True, False)]
